@@ -12,7 +12,8 @@ checks = []
 na = []
 for pid in ALL:
     p = os.path.join(V, "props", pid + ".py")
-    if not os.path.exists(p):
+    ready = set(open(os.path.join(V, "tools", "ready.txt")).read().split())
+    if not os.path.exists(p) or pid not in ready:
         na.append({"property_id": pid, "reason": "check not built yet in this round (planned, see DESIGN.md section 7); nothing is claimed for it"})
         continue
     m = importlib.import_module("props." + pid)
